@@ -9,7 +9,7 @@
 
     A vector value is its register: 16 bytes in memory order. Mirrors the tree
     after the repairs P2, P3, P4, P5, P14. *)
-From Coq Require Import NArith List Bool.
+From Coq Require Import NArith List Bool Arith.
 From CC Require Import Lib.Words Lib.Bytes Lib.ListX Model.Intrinsics.
 Import ListNotations.
 Local Open Scope N_scope.
@@ -283,3 +283,80 @@ Definition u64x4_to_lanes (s4 : bool) (v : reg * reg) : list N :=
   u64x2_to_lanes s4 (fst v) ++ u64x2_to_lanes s4 (snd v).
 Definition u64x4_from_lanes (s4 : bool) (xs : list N) : reg * reg :=
   (u64x2_from_lanes s4 [nth 0 xs 0; nth 1 xs 0], u64x2_from_lanes s4 [nth 2 xs 0; nth 3 xs 0]).
+
+(** * u32x4x4_sse2 = x4<u32x4_sse2>: [Vector<[u32;16]>::to_scalars] is [transmute!] of the
+    four registers in order *)
+Definition sse_x4_to_scalars (v : list reg) : list N := words_le 4 (concat v).
+(** [impl_into!] / [impl_into_x!]: u128x1 -> u32x4 / u64x2 (and the x2, x4 forms) keep the register *)
+Definition sse_into_other (x : reg) : reg := x.
+
+(** * soft.rs wrappers [x2<W,G>] / [x4<W>] as the x86 types use them: a wide value is the list of
+    its elements (element 0 first = memory order); every method applies the element's method to
+    each element. (Executable copy local to the x86 model; the generic forwarding of soft.rs is
+    modelled and proved by the portable part, Model/PpvSoft.v, Props/C12g.v, C13g.v.) *)
+Section Soft.
+  Context {W : Type}.
+
+  (** [fwd_unop_x2!]/[fwd_unop_x4!], [Not], [BSwap], [Swap64], [RotateEachWord*], [LaneWords4] *)
+  Definition xn_unop (f : W -> W) (v : list W) : list W := map f v.
+  (** [fwd_binop_x2!]/[fwd_binop_x4!] (and the [*_assign] forms, which update each element) *)
+  Definition xn_binop (f : W -> W -> W) (a b : list W) : list W := map2 f a b.
+
+  (** [Vec2]/[Vec4]: [self.0[i as usize]] — an index past the array panics *)
+  Definition xn_extract (v : list W) (i : N) : outcome W :=
+    if i <? N.of_nat (length v) then
+      match nth_error v (N.to_nat i) with Some w => Ok w | None => Panic end
+    else Panic.
+  Definition xn_insert (v : list W) (w : W) (i : N) : outcome (list W) :=
+    if i <? N.of_nat (length v) then Ok (upd (N.to_nat i) w v) else Panic.
+
+  (** [MultiLane<[W; n]>], [UnsafeFrom<[W; n]>] *)
+  Definition xn_to_lanes (v : list W) : list W := v.
+  Definition xn_from_lanes (l : list W) : list W := l.
+
+  (** [Vec4Ext::transpose4] for [x4<W>] *)
+  Definition x4_transpose4 (d : W) (a b c e : list W) : list W * list W * list W * list W :=
+    ([nth 0 a d; nth 0 b d; nth 0 c d; nth 0 e d],
+     [nth 1 a d; nth 1 b d; nth 1 c d; nth 1 e d],
+     [nth 2 a d; nth 2 b d; nth 2 c d; nth 2 e d],
+     [nth 3 a d; nth 3 b d; nth 3 c d; nth 3 e d]).
+
+  (** [StoreBytes for x2]: the slice is split at [len / 2] *)
+  Definition x2_read (rd : list N -> outcome W) (bs : list N) : outcome (list W) :=
+    let h := Nat.div (length bs) 2 in
+    obind (rd (firstn h bs)) (fun a =>
+    obind (rd (skipn h bs)) (fun b => Ok [a; b])).
+  Definition x2_write (wr : W -> nat -> outcome (list N)) (d : W) (v : list W) (outlen : nat)
+    : outcome (list N) :=
+    let h := Nat.div outlen 2 in
+    obind (wr (nth 0 v d) h) (fun a =>
+    obind (wr (nth 1 v d) (outlen - h)%nat) (fun b => Ok (a ++ b))).
+  (** [StoreBytes for x4]: [n = len / 4], slices [..n], [n..2n], [2n..3n], [3n..] *)
+  Definition x4_read (rd : list N -> outcome W) (bs : list N) : outcome (list W) :=
+    let n := Nat.div (length bs) 4 in
+    obind (rd (firstn n bs)) (fun a =>
+    obind (rd (firstn n (skipn n bs))) (fun b =>
+    obind (rd (firstn n (skipn (2 * n) bs))) (fun c =>
+    obind (rd (skipn (3 * n) bs)) (fun e => Ok [a; b; c; e])))).
+  Definition x4_write (wr : W -> nat -> outcome (list N)) (d : W) (v : list W) (outlen : nat)
+    : outcome (list N) :=
+    let n := Nat.div outlen 4 in
+    obind (wr (nth 0 v d) n) (fun a =>
+    obind (wr (nth 1 v d) n) (fun b =>
+    obind (wr (nth 2 v d) n) (fun c =>
+    obind (wr (nth 3 v d) (outlen - 3 * n)%nat) (fun e => Ok (a ++ b ++ c ++ e))))).
+End Soft.
+
+(** storage: [vec256_storage::split128]/[new128] and the 512-bit forms; the
+    union is the concatenation of its 128-bit parts in memory order *)
+Fixpoint split_regs (n : nat) (k : nat) (bs : list N) : list reg :=
+  match n with
+  | O => []
+  | S n' => firstn k bs :: split_regs n' k (skipn k bs)
+  end.
+(** [Store<vec256_storage> for x2<W,G>] / [Store<vec512_storage> for x4<W>] with
+    [W::unpack] the identity on 16 bytes *)
+Definition x2_unpack (st : list N) : list reg := split_regs 2 16 st.
+Definition x4_unpack (st : list N) : list reg := split_regs 4 16 st.
+(** [From<x2<W,G>> for vec256_storage], [From<x4<W>> for vec512_storage] *)
+Definition xn_into_storage (v : list reg) : list N := concat v.
